@@ -23,6 +23,13 @@ Section Obj.
   Local Notation Q := (Q S OPS ATTRS OBJS F).
   Local Notation RT_concl := (RT_concl S OPS ATTRS OBJS F).
 
+  (** a field the hand-written codecs treat positionally *)
+  Lemma pos_field_facts fd : pos_field fd = true -> (f_tag fd =? 0) = false /\ f_setver fd = false /\ f_range fd = None.
+  Proof.
+    unfold pos_field. rewrite !andb_true_iff. intros ((H1 & H2) & H3). apply negb_true_iff in H1, H2.
+    destruct (f_range fd); [discriminate|]. auto.
+  Qed.
+
   (** the object: one item under the default tag of its type, read back by [dec_object]
       given the object type it conforms to *)
   Lemma object_rt g fc st ot obj items st' :
